@@ -99,11 +99,26 @@ HandleClauses(h) ==       \* Function.init takes exactly one reference, __deallo
   \cup (IF h.dealloc_derefs = 1 /\ h.dealloc_guarded THEN {} ELSE {"cb.handle_ref"})
   \cup (IF h.unwrapped_returns = 0 THEN {} ELSE {"cb.handle_ref"})
 
+(* Part C (computed-table discipline).  The hand-written C-level recursions
+   (cudd_zdd.pyx: _forall, _exist, _disjoin, _conjoin) memoise in CUDD's
+   computed table under a TAG.  Input caches: one record per function,
+   [where, lookups: tags read, inserts: tags written].  A function must read
+   and write under ONE tag, and no two functions may share a tag: otherwise the
+   result of one operation is returned for another (e.g. \A answered with the
+   result remembered for \E). *)
+TagSet(c) == {c.lookups[i] : i \in DOMAIN c.lookups} \cup {c.inserts[i] : i \in DOMAIN c.inserts}
+CacheClauses(k) ==
+  LET c == Data.caches[k] IN
+  (IF Cardinality(TagSet(c)) = 1 /\ Len(c.lookups) >= 1 /\ Len(c.inserts) >= 1 THEN {} ELSE {"cb.cache_tag"})
+  \cup (IF \E j \in DOMAIN Data.caches : j # k /\ TagSet(Data.caches[j]) \cap TagSet(c) # {}
+        THEN {"cb.cache_tag_shared"} ELSE {})
+
 NB == Len(Data.backends)
 NP == Len(Data.paths)
 NH == Len(Data.handles)
+NC == Len(Data.caches)
 Init == l = 0
-Next == /\ l < NB + NP + NH
+Next == /\ l < NB + NP + NH + NC
         /\ LET k == l + 1 IN
            IF k <= NB
            THEN LET be == Data.backends[k]
@@ -115,8 +130,11 @@ Next == /\ l < NB + NP + NH
            ELSE IF k <= NB + NP
            THEN LET p == Data.paths[k - NB]  v == PathClauses(p) IN
                 IF v = {} THEN TRUE ELSE PrintT(<<"VERDICT", p.where, k - NB, v>>)
-           ELSE LET h == Data.handles[k - NB - NP]  v == HandleClauses(h) IN
+           ELSE IF k <= NB + NP + NH
+           THEN LET h == Data.handles[k - NB - NP]  v == HandleClauses(h) IN
                 IF v = {} THEN TRUE ELSE PrintT(<<"VERDICT", h.backend, k - NB - NP, v>>)
+           ELSE LET v == CacheClauses(k - NB - NP - NH) IN
+                IF v = {} THEN TRUE ELSE PrintT(<<"VERDICT", Data.caches[k - NB - NP - NH].where, k - NB - NP - NH, v>>)
         /\ l' = l + 1
-Consumed == TLCGet("distinct") = NB + NP + NH + 1
+Consumed == TLCGet("distinct") = NB + NP + NH + NC + 1
 =============================================================================
